@@ -98,13 +98,18 @@ class PeerSim:
 class World:
     def __init__(self, loop, *, names: dict, me: str = 'me', roots: Optional[dict] = None,
                  askers: Optional[dict] = None, share: Optional[dict] = None, hold: bool = True,
-                 tmpdir: Optional[str] = None):
+                 tmpdir: Optional[str] = None, alias: Optional[dict] = None):
         """names: model id -> username of the remote peers; roots: model root id -> username for
         root names that are not peers; askers: model id -> username (may contain the id 'me');
         share: dict(dirs=[dict(path, mode, files=[relative paths])], friends=[asker ids])."""
         self.loop = loop
         self.me = me
         self.names = dict(names)
+        # alias {b: a}: model peer b is the same *user* as model peer a on another connection (a user
+        # that reconnects while its old link is still open); links are told apart by their addresses
+        self.alias = dict(alias or {})
+        for b, a in self.alias.items():
+            self.names[b] = self.names[a]
         self.rootnames = dict(roots or {})
         self.askers = dict(askers or {})
         self.share = share
@@ -126,12 +131,27 @@ class World:
         self.bystander = None
         self.file_paths: dict = {}
         # concrete name -> model id
-        self.ids = {v: k for k, v in self.names.items()}
+        self.ids = {v: k for k, v in sorted(self.names.items(), reverse=True) if k not in self.alias}
         self.ids.update({v: k for k, v in self.rootnames.items()})
         self.ids.update({v: k for k, v in self.askers.items()})
         self.ids[me] = 'me'
 
     # ------------------------------------------------------------------ helpers
+    def idof_peer(self, dpeer) -> str:
+        """Model id of a DistributedPeer: by the address of its connection (two links of one user are two
+        model peers), by user name when the address belongs to none of the links."""
+        try:
+            key = (dpeer.connection.hostname, int(dpeer.connection.port))
+        except Exception:
+            key = None
+        for pid, ps in self.peers.items():
+            if key is not None and ps.ep is not None:
+                if key == (ps.ip, ps.port) and ps.req:
+                    return pid
+                if not ps.req and key == tuple(ps.ep.link.addr[0]):
+                    return pid
+        return self.idof(dpeer.username)
+
     def idof(self, name) -> str:
         return self.ids.get(name, '?' + str(name))
 
@@ -372,7 +392,7 @@ class World:
         bursts: the closing connection must be unrelated to the request being passed on)."""
         ps = self._need_open(pid)
         dn = self.dn
-        if (dn.parent is not None and dn.parent.username == ps.name) or any(c.username == ps.name for c in dn.children):
+        if (dn.parent is not None and self.idof_peer(dn.parent) == pid) or any(self.idof_peer(c) == pid for c in dn.children):
             raise Infeasible('not an unrelated peer')
         self.s_close(pid, mode)
 
@@ -528,8 +548,8 @@ class World:
     def s_reset(self):
         self._need_session()
         self.reset_pending = True
-        tree = [c.username for c in self.dn.children] + ([self.dn.parent.username] if self.dn.parent else [])
-        self.reset_wait = {self.idof(n) for n in tree if self.idof(n) in self.peers}
+        tree = list(self.dn.children) + ([self.dn.parent] if self.dn.parent else [])
+        self.reset_wait = {self.idof_peer(n) for n in tree if self.idof_peer(n) in self.peers}
         self.rec(ev='reset')
         self.session.send(self.M.ResetDistributed.Response())
 
@@ -554,7 +574,7 @@ class World:
         else:
             ps = self._need_open(frm)
             par = self.dn.parent
-            if par is None or par.username != ps.name:
+            if par is None or self.idof_peer(par) != frm:
                 raise Infeasible('sender is not the parent')
         self.nsearch += 1
         inc, exc = parse_query(query)
@@ -636,20 +656,22 @@ class World:
             except Exception:
                 return 'unknown'
         self.rec(ev='snap', q=not self.busy(),
-                 parent=self.idof(par.username) if par is not None else 'none',
+                 parent=self.idof_peer(par) if par is not None else 'none',
                  pst=cstate(par) if par is not None else 'none',
-                 children=[self.idof(c.username) for c in dn.children],
+                 children=[self.idof_peer(c) for c in dn.children],
                  cst=[cstate(c) for c in dn.children],
                  links=links, req=req,
                  session=self.client.session is not None)
 
 
-def run_schedule(stimuli, *, names, me='me', roots=None, askers=None, share=None, hold=True, tmpdir=None):
+def run_schedule(stimuli, *, names, me='me', roots=None, askers=None, share=None, hold=True, tmpdir=None,
+                 alias=None):
     """Execute a list of stimuli on a fresh world; returns (events, info)."""
     info: dict[str, Any] = {}
 
     async def main(loop):
-        w = World(loop, names=names, me=me, roots=roots, askers=askers, share=share, hold=hold, tmpdir=tmpdir)
+        w = World(loop, names=names, me=me, roots=roots, askers=askers, share=share, hold=hold, tmpdir=tmpdir,
+                  alias=alias)
         await w.start()
         w.snap()
         try:
